@@ -37,3 +37,20 @@ Lemma long_path_ch63_accepted : packet_wire_valid (mkP (hdr0 (v4 1) (DP_Std 0 63
 Proof. vm_compute. reflexivity. Qed.
 Lemma seg_len_64_rejected : packet_wire_valid (mkP (hdr0 (v4 1) (DP_Std 0 0 [seg 64])) (PL_Raw [])) = false.
 Proof. vm_compute. reflexivity. Qed.
+
+(** open finding C03-decoder-accepts-unencodable-path-index: 89 canonical bytes (consistent
+    lengths, reserved bits zero, verifying checksum) with ONE hop field and CurrHF = 2: the
+    decoder accepts them, the encoder's gate rejects the decoded model *)
+Definition idx_bytes : bytes :=
+  rle_expand [(1,11); (1,128); (1,0); (1,1); (1,17); (1,20); (1,0); (1,9); (1,1); (1,227); (10,0); (8,255); (1,160); (1,161); (1,162);
+    (1,163); (1,164); (1,165); (1,166); (1,167); (1,168); (1,169); (1,170); (1,171); (1,32); (1,1); (1,13); (1,184); (4,0); (2,255);
+    (2,0); (1,60); (1,78); (1,0); (1,1); (1,2); (1,0); (1,16); (3,0); (1,209); (1,140); (3,0); (1,1); (4,0); (2,255); (1,1); (1,2);
+    (1,3); (1,4); (1,5); (6,0); (1,9); (1,112); (1,236); (1,67)].
+Lemma idx_bytes_accepted_but_unencodable :
+  match decode_packet 1 idx_bytes with
+  | Ok (m, []) => packet_wire_valid m = false /\ path_index_out_of_range m = true
+  | _ => False
+  end
+  /\ (match spec_decode 1 idx_bytes with Some _ => true | None => false end) = true
+  /\ spec_checksum_ok 1 idx_bytes = true.
+Proof. vm_compute. repeat split; reflexivity. Qed.
